@@ -7,7 +7,10 @@ Descriptors
     ("prio", leaves)   a PrioritizedInterpretation made by entering a partial interpretation; ``leaves`` is the
                        flattened priority chain, first = innermost
 Leaves of a chain
-    "A", "B"                         the two user-defined partial interpretations (A answers the sentinel probe)
+    "A", "B"                         the two user-defined partial DispatchedInterpretations (A answers the sentinel
+                                     probe with its sentinel, B's rule returns None)
+    "C"                              a user-defined partial interpretation written as a plain function wrapped in
+                                     CallableInterpretation (its own sentinel for the sentinel probe, None otherwise)
     ("tape", d)                      an AdjointTape whose saved outer interpretation has descriptor d
     ("memo", d)                      a Memoize layered under a partial interpretation
     "eager_base", "normalize_base", "lazy_base", "sequential_base", "moment_matching_base", "reflect"
@@ -25,8 +28,8 @@ TOTALS = {
     "moment_matching": ("moment_matching_base", "eager_base", "normalize_base", "reflect"),
 }
 _BY_LEAVES = {v: k for k, v in TOTALS.items()}
-PARTIALS = ("A", "B")
-SYMBOLS = ("eager", "lazy", "reflect", "normalize", "sequential", "moment_matching", "memo", "A", "B", "tape")
+PARTIALS = ("A", "B", "C")
+SYMBOLS = ("eager", "lazy", "reflect", "normalize", "sequential", "moment_matching", "memo", "A", "B", "C", "tape")
 PERSISTENT_TAPE = "T0"  # one AdjointTape INSTANCE per history, re-entered sequentially (never while it is active)
 ALL_SYMBOLS = SYMBOLS + (PERSISTENT_TAPE,)
 BASE = ("reflect", "eager")
@@ -55,6 +58,7 @@ _NAMES = {
     "reflect": "reflect",
     "A": "userA",
     "B": "userB",
+    "C": "userC",
 }
 
 
@@ -110,7 +114,8 @@ def kind(d):
 
 
 def sentinel(d):
-    """"SENT" if the sentinel rule of A answers the sentinel probe under entry d, else "ProbeTerm"."""
+    """"SENT" / "SENTC" if the sentinel rule of A / the function C answers the sentinel probe under entry d
+    (whichever is innermost), else "ProbeTerm"."""
     if isinstance(d, str):
         return "ProbeTerm"
     if d[0] in ("memo", "tape"):
@@ -118,6 +123,8 @@ def sentinel(d):
     for leaf in d[1]:
         if leaf == "A":
             return "SENT"
+        if leaf == "C":
+            return "SENTC"
         if not isinstance(leaf, str):
             return sentinel(leaf)
     return "ProbeTerm"
